@@ -163,6 +163,49 @@ def _task(task):
     return acc
 
 
+def _soak_task(task):
+    """thousands of distinct parameter sets over one group in one process: state saved under the k-th is offered to the first one
+    (must raise WrongGroupError every time), and the first one keeps accepting its own state"""
+    name, n = task
+    acc = Acc()
+    base, why = T.try_get(name)
+    if base is None:
+        return acc
+    L = T.lib()
+    home = base
+    s0 = home.new("A", b"pw", (b"", b""), 3)
+    s0.start()
+    blob0 = s0.serialize()
+    for k in range(n):
+        seed = b"soak-%d" % k
+        try:
+            e = base.ref.arbitrary(seed)
+        except Exception:
+            continue
+        if e == base.rp.M:
+            continue
+        P = L.params._Params(base.group, M=seed, N=base.rp.seeds[1], S=base.rp.seeds[2])
+        s = L.A(b"pw", params=P, entropy_f=base.entropy(3))
+        s.start()
+        blob = s.serialize()
+        got = T.observe(L.A.from_serialized, blob, params=home.params)
+        acc.n(states=1, transitions=2)
+        if got != ("exc", "WrongGroupError"):
+            acc.violation("C09/A->A/param-mismatch-accepted-after-many-parameter-sets",
+                          {"what": "after %d other parameter sets were used in the process, state saved under M-seed %r is accepted under the original set" % (k, seed),
+                           "replay": {"fn": "soak", "name": name, "k": k}, "expected": ("exc", "WrongGroupError"), "observed": got if got[0] != "ok" else ("ok", "instance")})
+            break
+        if k % 257 == 0:
+            own = T.observe(L.A.from_serialized, blob0, params=home.params)
+            if own[0] != "ok":
+                acc.violation("C09/A->A/own-state-refused", {"what": "own state refused after %d other parameter sets" % k,
+                              "replay": {"fn": "soak", "name": name, "k": k}, "expected": "instance", "observed": own})
+                break
+    acc.seen((name, "soak", n))
+    acc.n(traces=1)
+    return acc
+
+
 def _default_path(acc):
     L = T.lib()
     for name in ("Params1024", "ParamsEd25519"):
@@ -209,6 +252,7 @@ def run(tier, seed):
                 tasks.append((n1, c1, ch))
             tasks.append((n1, c1, light))
     core.pmerge(_task, tasks, acc)
+    core.pmerge(_soak_task, [("T23", 2600 if tier == "quick" else 9000), ("T29", 2600 if tier == "quick" else 70000)], acc)
     _default_path(acc)
     return acc
 
@@ -217,6 +261,10 @@ def replay(rec):
     r = T.unjson(rec["replay"])
     if r.get("default_path"):
         return "default-path run; see observed"
+    if r.get("fn") == "soak":
+        a = Acc()
+        a.merge(_soak_task((r["name"], r["k"] + 1)))
+        return sorted(a.viol)
     sv, rs = r["save"], r["restore"]
     i1, i2 = T.build_inst(sv["inst"]), T.build_inst(rs["inst"])
     s = i1.new(sv["side"], sv["pw"], tuple(sv["ids"]), sv["x"])
